@@ -84,10 +84,10 @@ def check_bed(res, kind, exons, strand, cds, window, chrom_mode, menu, N, order=
             mk_ = lambda: lib.mk_tx(exons, strand, cds_blocks, frames, parent, order=order, sequence_name="chrV", transcript_symbol="sym", transcript_id="tid")
         else:
             mk_ = lambda: lib.mk_tx(exons, strand, parent=parent, order=order, sequence_name="chrV", transcript_symbol="sym", transcript_id="tid")
-        exp_name = {"transcript_symbol": "sym", "transcript_id": "tid", "free text": "free text"}[name_arg]
+        exp_name = {"transcript_symbol": "sym", "transcript_id": "tid", "free text": "free text", "sequence_name": "chrV", "guid": None}[name_arg]
     else:
         mk_ = lambda: lib.mk_feat(exons, strand, parent, order=order, sequence_name="chrV", feature_name="sym", feature_id="tid")
-        exp_name = {"transcript_symbol": "transcript_symbol", "transcript_id": "transcript_id", "free text": "free text"}[name_arg]
+        exp_name = {"transcript_symbol": "transcript_symbol", "transcript_id": "transcript_id", "free text": "free text", "sequence_name": "chrV", "guid": None}[name_arg]
         if name_arg == "transcript_symbol":
             name_arg, exp_name = "feature_name", "sym"
         elif name_arg == "transcript_id":
@@ -98,6 +98,9 @@ def check_bed(res, kind, exons, strand, cds, window, chrom_mode, menu, N, order=
         res.deviation("constructor", case, oc_[1], "object", sig="ctor-raises")
         return
     obj = oc_[1]
+    if name_arg == "guid":
+        # ("Which identifier in this record to use as 'name'. feature_name to guid": any attribute of the record may be named)
+        exp_name = str(obj.guid)
     if shared is not None:
         from inscripta.biocantor.gene import GeneInterval, FeatureIntervalCollection
 
@@ -189,7 +192,7 @@ def check_bed(res, kind, exons, strand, cds, window, chrom_mode, menu, N, order=
 
 
 SCALE_KS = {"quick": (4, 6, 11, 24), "thorough": (4, 5, 6, 8, 11, 16, 24, 33, 64)}
-MENUS = [("transcript_symbol", 0, (0, 0, 0)), ("transcript_id", 1000, (255, 0, 7)), ("free text", 5, (1, 2, 3))]
+MENUS = [("transcript_symbol", 0, (0, 0, 0)), ("transcript_id", 1000, (255, 0, 7)), ("free text", 5, (1, 2, 3)), ("guid", 0, (0, 0, 0)), ("sequence_name", 0, (0, 0, 0))]
 
 
 def run_scale(res, shard):
